@@ -992,10 +992,8 @@ def remarked(desc):
         cvals = [v for k, v in desc["nodes"][s_]["kw"] if k == "c"]
         cvals += [a["v"] for a in desc["actions"] if a["a"] == "set" and a.get("n") == s_ and a.get("name") == "c"]
         for v in cvals:
-            if v.get("t") == "out":
-                return True
             if v.get("t") != "ref":
-                continue
+                continue                # c = <output of another task>: the output is a copy since /repo e2f4b5e
             k = v["n"]
             # ... or `c` is also held by a pre-task / init task of the task itself: those are identified on their own
             # (outside the hash of the task), so they see the mark once it is set
